@@ -452,8 +452,109 @@ def search(ctx, broken):
     return {'cases': len(cases), 'failures': failures, 'distinct_nontrivial': len(nontriv), 'samples': [cases[len(REGRESSIONS) + 5], cases[n_exh + 1], cases[-1]],
             'exhaustive_command_table_cases': n_exh, 'rip_commands': [len(t) for t in tables], 'igs_commands': len(igt), 'signatures': sig}
 
+# ---------------------------------------------------------------------------------------------------------------
+# stage C: modelled tokenizer + kernel vs the real parser, on streams restricted to the modelled commands
+MODELLED0 = 'wv*eEgH>cQaWmXBSs$'
+MODELLED1 = 'KTtEWD\x1bR'
+XS = ['00', '00', '01', '05', '0A', '0K', '10', '1E', '2S', 'HR', 'HS', 'ZZ']
+YS = ['00', '00', '01', '05', '0A', '0K', '10', '1E', '9P', '9Q', 'ZZ']
+B36 = '0123456789ABCDEFGHIJKLMNOPQRSTUVWXYZ'
+
+def gen_model_cmd(rng):
+    r = rng.random()
+    if r < 0.10: lv, c = 1, rng.choice(MODELLED1)
+    elif r < 0.12: lv, c = 9, '\x1b'
+    else: lv, c = 0, rng.choice(MODELLED0 + 'vvXXXBBBcSsWm')
+    if lv == 0 and c in '*eEH>': 
+        if c == '*' and rng.random() < 0.8: c = rng.choice('eH>E')     # full-screen clears are slow to evaluate in Coq: keep them rarer
+        return rip_cmd(0, c, '')
+    if lv == 1 and c in 'KE': return rip_cmd(1, c, '')
+    xy = lambda: rng.choice(XS) + rng.choice(YS)
+    if lv == 0:
+        if c == 'w': p = xy() + xy() + rng.choice('01') + rng.choice('01234A')
+        elif c == 'v':
+            p = xy() + xy() if rng.random() < 0.5 else rng.choice(['00', '05', '0A']) + rng.choice(['00', '05', '0A']) + rng.choice(['0K', '10', '1E', '0A']) + rng.choice(['0K', '10', '1E', '05'])
+        elif c in 'gmX': p = xy()
+        elif c == 'B': p = xy() + xy()
+        elif c in 'cW': p = rng.choice(['00', '01', '02', '03', '04', '05', '07', '0F', '0G', '1S', 'ZZ', '73', '74'])
+        elif c == 'Q': p = ''.join(rng.choice(['00', '01', '07', '1R', '1S', '3F', 'ZZ', '0Z']) for _ in range(rng.choice([16, 16, 16, 1, 3, 8])))
+        elif c == 'a': p = rng.choice(['00', '05', '0F', '0G', '10', 'ZZ']) + rng.choice(['00', '1B', '1R', '1S', 'ZZ', '3F'])
+        elif c == 'S': p = rng.choice(['00', '01', '02', '05', '0B', '0C', '0D', 'ZZ', '74']) + rng.choice(['00', '01', '0F', '0G', 'ZZ'])
+        elif c == 's': p = ''.join(rng.choice(['00', '01', 'ZZ', '2S', '7V', '4Q', '73']) for _ in range(8)) + rng.choice(['00', '0F', '0G', '09'])
+        elif c == '$': p = rng.choice(['DATE', 'X', '', 'A B']) + ('$' if rng.random() < 0.8 else '')
+        else: p = ''
+    else:
+        p = ''.join(rng.choice(B36) for _ in range(rng.choice([0, 2, 5, 8, 10]))) + rng.choice(['', 'text', 'a.b<>c'])
+    m = rng.random()
+    if m < 0.12 and p: p = p[:rng.randrange(len(p))]                                  # truncated
+    elif m < 0.20: p = p + ''.join(rng.choice(B36) for _ in range(rng.randint(1, 4)))  # over-long
+    elif m < 0.26 and p: k = rng.randrange(len(p)); p = p[:k] + rng.choice(' !-,.;') + p[k+1:]   # not a digit
+    elif m < 0.32 and p: k = rng.randrange(len(p) + 1); p = p[:k] + rng.choice(['\\\n', '\\\r\n', '\\', '\r']) + p[k:]   # continuation
+    elif m < 0.36 and p: p = ''.join(rng.choice(B36 + 'abcxyz') for _ in p)
+    term = '|' if rng.random() < 0.88 else rng.choice(['\n!', '\r\n!', '\n', '\n!!', '#|', '#x!'])
+    return rip_cmd(lv, c, p.replace('|', '0'), term)
+
+def gen_model_stream(rng):
+    k = rng.choice([1, 2, 3, 5, 8, 12, 20])
+    cmds = []
+    if rng.random() < 0.75:
+        cmds.append('|v' + rng.choice(['00', '05']) + rng.choice(['00', '02']) + rng.choice(['0K', '1E', '0A']) + rng.choice(['08', '0K', '05']))   # a small viewport first
+    for _ in range(k): cmds.append(gen_model_cmd(rng))
+    if rng.random() < 0.15: cmds.insert(rng.randrange(len(cmds) + 1), rng.choice(['|?', '|1?', '|9x', '|1', ' plain text !', 'x!y!|', '|#', '|#\n!']))
+    s = rng.choice(['!', '!', '!', 'ab!', '!!']) + ''.join(cmds)
+    if not s.endswith('\n') and rng.random() < 0.9: s += '|'
+    return s
+
+DIRECTED_C = ['!|c0A|X0101|', '!|v05050A0A|B00000Z0Z|', '!|*|', '!|E|', '!|w00001B0M10|e|', '!|w0000000000|text|w0000000000|more', '!|S0B0F|B00000K0K|', '!|S0C0F|s0102040810204080ZZ|B05050K0K|',
+              '!|W01|c0F|X0505|X0505|', '!|W04|X0000|', '!|W02|c03|X0101|c0C|X0101|', '!|W03|c03|X0101|', '!|Q000102030405060708090A0B0C0D0E0F|', '!|Q1S|', '!|a051B|a0Z1S|', '!|aZZZZ|',
+              '!|vHRHR0000|B0000ZZZZ|E|', '!|v0000ZZZZ|XHS00|XHR9P|XHS9P|', '!|v0005ZZ0A|S020F|E|', '!|m0509|g0A0B|', '!|w0A0A00001 |e|', '!|w050A0A0501|S010F|e|', '!|c0|', '!|X01|', '!|B0505|',
+              '!|c0\\\n1|X0000|', '!|$A$|c01|', '!|1K|1E|1T0011001100|c02|', '!|#|c01|', '!|#x!|c01|', '!x!|c01|', '!|c01\n!|c02|', '!|v00000A0A|S020F|B00000A0A|W01|B00000A0A|']
+
+def model_parallel(ctx, imports, exprs, ways=16, timeout=900):
+    """ctx.model caps its shard count at one per 50 expressions; a full-screen fill costs seconds in Coq, so the expressions are
+    dealt round-robin to `ways` concurrent ctx.model calls (each on a shallow copy of ctx with its own case-file prefix)"""
+    import copy, threading
+    ways = max(1, min(ways, len(exprs)))
+    out = [None] * len(exprs); errs = []
+    def work(k):
+        c = copy.copy(ctx); c.pid = '%s_w%d' % (ctx.pid, k)
+        idx = list(range(k, len(exprs), ways))
+        r = c.model(imports, [exprs[i] for i in idx], shards=1, timeout=timeout)
+        for i, v in zip(idx, r): out[i] = v
+        errs.extend(getattr(c, 'model_errors', []))
+    th = [threading.Thread(target=work, args=(k,)) for k in range(ways)]
+    for t in th: t.start()
+    for t in th: t.join()
+    ctx.model_errors = errs
+    return out
+
+def to_codes(s):
+    return '[%s]%%N' % '; '.join(str(ord(ch)) for ch in s)
+
 def correspondence(ctx):
-    return {'cases': 0, 'disagreements': [], 'distinct_nontrivial': 0, 'distribution': {}, 'samples': []}
+    rng = ctx.rng
+    streams = [d.encode().decode('unicode_escape') for d in DIRECTED_C] + [gen_model_stream(rng) for _ in range(ctx.n(260, 2500))]
+    cases = ['ripobs ' + hx(s) for s in streams]
+    impl = ctx.impl(cases, per_case_timeout=10)
+    model = model_parallel(ctx, 'From IE Require Import Run.RunC20.\nLocal Open Scope Z_scope.', ['run_rip %s' % to_codes(s) for s in streams])
+    dis = []; nontriv = set(); dist = {'with_error_chars': 0, 'panic_both': 0}
+    lens = {}
+    for st, c, r, m in zip(streams, cases, impl, model):
+        a = r[1] if (r is not None and r[0] == 'ok') else ([-1] if (r is not None and r[0] == 'panic') else None)
+        b = m
+        if b is not None and len(b) >= 1 and b[0] == -1: b = [-1]
+        if a != b or a is None:
+            dis.append({'case': c, 'stream': st, 'impl': r if r is None or r[0] != 'ok' else r[1], 'model': m})
+        else:
+            if a == [-1]: dist['panic_both'] += 1
+            else:
+                if a[0] > 0: dist['with_error_chars'] += 1
+                nontriv.add(st)
+        n = st.count('|'); lens[n] = lens.get(n, 0) + 1
+    dist['commands_per_stream'] = {str(k): v for k, v in sorted(lens.items())}
+    dist['model_errors'] = getattr(ctx, 'model_errors', [])[:2]
+    return {'cases': len(cases), 'disagreements': dis, 'distinct_nontrivial': len(nontriv), 'distribution': dist,
+            'samples': [cases[0], cases[len(DIRECTED_C) + 1], cases[-1]]}
 
 def replay(ctx, body):
     from vlib import driver
